@@ -132,6 +132,10 @@ pub trait HInput<'a>: Input<'a, Token: HTok, Span: HSpan> + Sized + 'a {
     fn nested_in<E: HErr<'a, Self>>(_a: P<'a, Self, E>) -> Res<P<'a, Self, E>> {
         build::unsupported("NestedIn: only on the tree kind")
     }
+    /// `(NestedVia a)`: `nested_in` with a compound `b`.
+    fn nested_via<E: HErr<'a, Self>>(_a: P<'a, Self, E>) -> Res<P<'a, Self, E>> {
+        build::unsupported("NestedVia: only on the tree kind")
+    }
 
     /// `(Just ts)`: `just(c)` for one token, else `just(String)` / `just(Vec<Token>)`.
     fn just<E: HErr<'a, Self>>(ts: &[u32]) -> P<'a, Self, E>;
@@ -187,6 +191,14 @@ macro_rules! seq_impl {
             build::just_cfg_string(ts)
         }
     };
+    (grapheme) => {
+        fn just<E: HErr<'a, Self>>(ts: &[u32]) -> P<'a, Self, E> {
+            build::just_gr(ts)
+        }
+        fn just_cfg<E: HErr<'a, Self>>(ts: &[u32]) -> P<'a, Self, E> {
+            build::just_cfg_vec(ts)
+        }
+    };
     (vec) => {
         fn just<E: HErr<'a, Self>>(ts: &[u32]) -> P<'a, Self, E> {
             build::just_vec(ts)
@@ -229,6 +241,15 @@ macro_rules! value_impl {
         }
         fn none_of<E: HErr<'a, Self>>(ts: &[u32]) -> Res<P<'a, Self, E>> {
             Ok(build::v_none_of_string(ts))
+        }
+    };
+    (grapheme) => {
+        value_impl!(@common);
+        fn one_of<E: HErr<'a, Self>>(ts: &[u32]) -> Res<P<'a, Self, E>> {
+            Ok(build::v_one_of_gr(ts))
+        }
+        fn none_of<E: HErr<'a, Self>>(ts: &[u32]) -> Res<P<'a, Self, E>> {
+            Ok(build::v_none_of_gr(ts))
         }
     };
     (vec) => {
@@ -731,6 +752,9 @@ impl<'a> HInput<'a> for TreeIn<'a> {
     fn nested_in<E: HErr<'a, Self>>(a: P<'a, Self, E>) -> Res<P<'a, Self, E>> {
         Ok(build::nested_tree(a))
     }
+    fn nested_via<E: HErr<'a, Self>>(a: P<'a, Self, E>) -> Res<P<'a, Self, E>> {
+        Ok(build::nested_tree_via(a))
+    }
 }
 
 // ----- graphemes: &Graphemes; gslice: &[&Grapheme] (version 4) -----
@@ -852,8 +876,8 @@ impl<'a: 'static> HInput<'a> for &'a Graphemes {
         cv.get().pos(raw)
     }
     cur_impl!();
-    seq_impl!(vec);
-    value_impl!(vec);
+    seq_impl!(grapheme);
+    value_impl!(grapheme);
 
     // slices are `&Graphemes` into the text
     const HAS_SLICE: bool = true;
@@ -875,7 +899,7 @@ impl<'a: 'static> HInput<'a> for &'a [&'a Grapheme] {
         index_pos(cv.get().len(), raw)
     }
     cur_impl!();
-    seq_impl!(vec);
-    value_impl!(vec);
+    seq_impl!(grapheme);
+    value_impl!(grapheme);
     slice_impl!(elems, &'a Grapheme);
 }
